@@ -363,25 +363,137 @@ Definition call_ref (k : nat) (calls acc a b : Z) : Z * Z * Z (* result, calls',
   | S O => (a - 2 * b, calls, acc)
   | _ => ((acc + a) * 3 + b, calls, acc + a)
   end.
-Fixpoint spec_frun (bound : option nat) (calls acc : Z) (ops : list fop) (segs : list (list tok)) : list tok :=
+(* a copy of a callable reference refers to the callable the source referred to when the copy was made (an empty
+   source gives an empty copy); re-binding or destroying the source afterwards does not affect the copy *)
+Definition spec_fcall (target : option nat) (calls acc a b : Z) : Z * Z * list tok :=
+  match target with
+  | None => (calls, acc, [tag "skip"])
+  | Some k => if Nat.ltb k 3 then let '(r, c, x) := call_ref k calls acc a b in (c, x, [TZ r])
+              else (calls, acc, [tag "null"])
+  end.
+Definition spec_fbool (target : option nat) : list tok :=
+  match target with None => [tag "skip"] | Some k => [tbool (Nat.ltb k 3)] end.
+Definition spec_fstep (bound copy : option nat) (calls acc : Z) (op : fop) : option nat * option nat * Z * Z * list tok :=
+  match op with
+  | FBind k => if Nat.ltb k 5 then (Some k, copy, calls, acc, []) else (bound, copy, calls, acc, [tag "skip"])
+  | FCall a b | FCopyCall a b => let '(c, x, res) := spec_fcall bound calls acc a b in (bound, copy, c, x, res)
+  | FBool => (bound, copy, calls, acc, spec_fbool bound)
+  | FCopy m => match bound with
+               | Some k => if Nat.ltb m 3 then (bound, Some k, calls, acc, []) else (bound, copy, calls, acc, [tag "skip"])
+               | None => (bound, copy, calls, acc, [tag "skip"])
+               end
+  | FCallC a b => let '(c, x, res) := spec_fcall copy calls acc a b in (bound, copy, c, x, res)
+  | FBoolC => (bound, copy, calls, acc, spec_fbool copy)
+  | FDrop => (None, copy, calls, acc, [])
+  end.
+Fixpoint spec_frun (bound copy : option nat) (calls acc : Z) (ops : list fop) (segs : list (list tok)) : list tok :=
   match ops, segs with
   | [], [] => []
   | op :: ops', seg :: segs' =>
-      let '(bound', calls', acc', res) :=
-        match op with
-        | FBind k => if Nat.ltb k 5 then (Some k, calls, acc, []) else (bound, calls, acc, [tag "skip"])
-        | FCall a b | FCopyCall a b =>
-            match bound with
-            | None => (bound, calls, acc, [tag "skip"])
-            | Some k => if Nat.ltb k 3 then let '(r, c, x) := call_ref k calls acc a b in (bound, c, x, [TZ r])
-                        else (bound, calls, acc, [tag "null"])
-            end
-        | FBool => match bound with None => (bound, calls, acc, [tag "skip"]) | Some k => (bound, calls, acc, [tbool (Nat.ltb k 3)]) end
-        end in
-      check (toks_eqb seg (res ++ [tag "C"; TZ calls'; TZ acc'])) "function_ref:application" ++
-      spec_frun bound' calls' acc' ops' segs'
+      let '(bound', copy', calls', acc', res) := spec_fstep bound copy calls acc op in
+      checkb (toks_eqb seg (res ++ [tag "C"; TZ calls'; TZ acc'])) "function_ref:"
+             (match op with FCopy _ | FCallC _ _ | FBoolC | FDrop => bs "copy" | _ => bs "application" end) ++
+      spec_frun bound' copy' calls' acc' ops' segs'
   | _, _ => fail "obs:segment_count"
   end.
 Definition spec_fr (ops : list fop) (segs : list (list tok)) : list tok :=
-  spec_frun None 0 0 ops (removelast segs) ++
+  spec_frun None None 0 0 ops (removelast segs) ++
   check (toks_eqb (last segs []) [tag "std"; TZ 1]) "std_equiv:function_ref".
+
+(* ---------------------------------------------------------------- self-referential nodes: two disjoint chains *)
+
+(* What std::unique_ptr / std::shared_ptr do to the two chains (as lists from the root), independent of the order in
+   which release / delete / store happen inside the member functions. *)
+Definition sroots (hd aux : list nat) (next : nat) (op : cop) : list nat * list nat :=
+  match op with
+  | CPush => (next :: hd, aux)
+  | CPushAux => (hd, next :: aux)
+  | CAppend => (hd ++ [next], aux)
+  | CPop | CPopR | CPopC => (tl hd, aux)
+  | CPop2 => (tl (tl hd), aux)
+  | CCutTail => (firstn 1 hd, aux)
+  | CSplit => (firstn 1 hd, tl hd)
+  | CJoin => (firstn 1 hd ++ aux, [])
+  | CSwapAux => (aux, hd)
+  | CSwapTail => (firstn 1 hd ++ aux, tl hd)
+  | CDetach => (tl hd, firstn 1 hd)
+  | CMoveHead => (aux, [])
+  | CSelfNext => (hd, aux)
+  | CClear => ([], aux)
+  | CClearAux => (hd, [])
+  end.
+Definition creates (op : cop) : bool := match op with CPush | CPushAux | CAppend => true | _ => false end.
+Definition svalid (shared : bool) (hd : list nat) (op : cop) : bool :=
+  match op with
+  | CPush | CPushAux | CAppend | CSwapAux | CMoveHead | CClear | CClearAux => true
+  | CPop | CCutTail | CSplit | CJoin | CSwapTail | CSelfNext => Nat.leb 1 (length hd)
+  | CPop2 => Nat.leb 2 (length hd)
+  | CPopR | CDetach => negb shared && Nat.leb 1 (length hd)
+  | CPopC => shared && Nat.leb 1 (length hd)
+  end.
+Definition cop_name (op : cop) : bytes :=
+  match op with
+  | CPush => bs "push" | CPushAux => bs "pushaux" | CAppend => bs "append" | CPop => bs "pop" | CPop2 => bs "pop2"
+  | CPopR => bs "popr" | CPopC => bs "popc" | CCutTail => bs "cuttail" | CSplit => bs "split" | CJoin => bs "join"
+  | CSwapAux => bs "swapaux" | CSwapTail => bs "swaptail" | CDetach => bs "detach" | CMoveHead => bs "movehead"
+  | CSelfNext => bs "selfnext" | CClear => bs "clear" | CClearAux => bs "clearaux"
+  end.
+
+Definition parse_cseg (seg : list tok) : option (list tok * list nat * tok * list nat * list nat) :=
+  match split_toks "D" seg with
+  | [res; r1] =>
+      match split_toks "L" r1 with
+      | [ids; r2] =>
+          match split_toks "H" r2 with
+          | [[n]; r3] =>
+              match split_toks "A" r3 with
+              | [h; a] => match toks_nats ids, toks_nats h, toks_nats a with
+                          | Some d, Some h, Some a => Some (res, d, n, h, a)
+                          | _, _, _ => None
+                          end
+              | _ => None
+              end
+          | _ => None
+          end
+      | _ => None
+      end
+  | _ => None
+  end.
+Fixpoint nats_eqb (a b : list nat) : bool :=
+  match a, b with
+  | [], [] => true
+  | x :: a', y :: b' => Nat.eqb x y && nats_eqb a' b'
+  | _, _ => false
+  end.
+
+(* one step: the chains afterwards, the nodes destroyed (exactly those no longer reachable, front to back), the count *)
+Definition spec_cseg (hd aux hd' aux' : list nat) (res : list tok) (name : bytes) (seg : list tok) : list tok :=
+  match parse_cseg seg with
+  | None => fail "obs:unparsable"
+  | Some (r, d, n, h, a) =>
+      checkb (toks_eqb r res) "chain_result:" name ++
+      checkb (nats_eqb h hd' && nats_eqb a aux') "chain_links:" name ++
+      checkb (nats_eqb d (filter (fun o => negb (mem o (hd' ++ aux'))) (hd ++ aux))) "chain_destroyed:" name ++
+      checkb (tok_eqb n (tnat (length (hd' ++ aux')))) "chain_live:" name
+  end.
+Fixpoint spec_crun (shared : bool) (hd aux : list nat) (next : nat) (ops : list cop) (segs : list (list tok)) : list tok :=
+  match ops, segs with
+  | [], [seg] => spec_cseg hd aux [] [] [tag "end"] (bs "end") seg
+  | op :: ops', seg :: segs' =>
+      if svalid shared hd op
+      then let (hd', aux') := sroots hd aux next op in
+           spec_cseg hd aux hd' aux' [] (cop_name op) seg ++
+           spec_crun shared hd' aux' (if creates op then S next else next) ops' segs'
+      else spec_cseg hd aux hd aux [tag "skip"] (cop_name op) seg ++ spec_crun shared hd aux next ops' segs'
+  | _, _ => fail "obs:segment_count"
+  end.
+Definition seg_cdestroyed (seg : list tok) : list nat :=
+  match parse_cseg seg with Some (_, d, _, _, _) => d | None => [] end.
+Definition ccreated (ops : list cop) (shared : bool) : nat :=
+  (* number of nodes the case creates: every valid creating op *)
+  length (filter creates ops).
+Definition spec_ch (shared : bool) (ops : list cop) (segs : list (list tok)) : list tok :=
+  let body := removelast segs in
+  spec_crun shared [] [] 0 ops body ++
+  check (same_set (flat_map seg_cdestroyed body) (seq 0 (ccreated ops shared))) "chain_exactly_once:whole_case" ++
+  check (toks_eqb (last segs []) [tag "std"; TZ 1]) "std_equiv:node_chain".
